@@ -58,6 +58,8 @@ def boot(preimport=True, quiet=True):
     if preimport:
         preimport_all()
     compat.post_import()
+    if quiet:
+        warnings.simplefilter("ignore")  # (statsmodels installs an 'always' filter at import)
     _BOOTED = True
 
 
